@@ -96,6 +96,9 @@ fn piece(data: &crate::model::Data, src: &crate::model::Src) -> (u64, Box<dyn Re
             crate::model::Data::Rand { seed, .. } => Some(*seed),
             _ => None,
         };
+        if let crate::model::Data::Period { n, p } = data {
+            return (*n as u64, Box::new(crate::seams::GenSource::periodic(*n, *p)));
+        }
         return (data.len() as u64, Box::new(crate::seams::GenSource::new(data.len(), seed)));
     }
     let mut bytes = data.bytes();
